@@ -128,6 +128,10 @@ Definition avail_lt (cb front n : Z) : bool := Z.ltb (u64 (cb - front)) n.
 
 Definition a_begin : G -> G * V * list ev := fun g => (g, (0, []), [EvAcc KBegin [] true]).
 
+(** Response events ("push_ok ..", "pop_fail k", ...) are what the harness prints right after the call
+    returned, i.e. in the same scheduler step as the last atomic access of the call: they are part of the
+    event list of that access. *)
+
 (** *** producer *)
 
 (** back = back_.load(); when the cached pfront_ already shows enough space, the copy loop runs in the
@@ -138,91 +142,109 @@ Definition a_push_ld_back (exp2 : bool) (cap pf : Z) (vals : list Z) : G -> G * 
     let g' := if space_lt cap pf back (zlen vals) then g else write_cells exp2 cap g back vals in
     (g', (back, []), [EvAcc KLd obj_back true]).
 
-(** pfront_ = front_.load(); second space test; copy loop when it succeeds *)
+(** pfront_ = front_.load(); second space test: return false, or the copy loop *)
 Definition a_push_ld_front (exp2 : bool) (cap back : Z) (vals : list Z) : G -> G * V * list ev :=
   fun g =>
     let pf := g_front g in
-    let g' := if space_lt cap pf back (zlen vals) then g else write_cells exp2 cap g back vals in
-    (g', (pf, []), [EvAcc KLd obj_front true]).
+    if space_lt cap pf back (zlen vals) then
+      (g, (pf, []), [EvAcc KLd obj_front true; EvCli "push_fail" [zlen vals]])
+    else (write_cells exp2 cap g back vals, (pf, []), [EvAcc KLd obj_front true]).
 
-Definition a_st_back (v : Z) : G -> G * V * list ev :=
-  fun g => (set_back g v, (0, []), [EvAcc KSt obj_back true]).
+(** back_.store( back ); return true *)
+Definition a_st_back (v : Z) (vals : list Z) : G -> G * V * list ev :=
+  fun g => (set_back g v, (0, []), [EvAcc KSt obj_back true; EvCli "push_ok" vals]).
 
-(** push( arr, count ): result = (new pfront_, success) *)
-Definition push_n (exp2 : bool) (cap pf : Z) (vals : list Z) : prog (Z * bool) :=
+(** push( arr, count ): result = new pfront_ *)
+Definition push_n (exp2 : bool) (cap pf : Z) (vals : list Z) : prog Z :=
   let n := zlen vals in
   Act (a_push_ld_back exp2 cap pf vals) (fun r =>
     let back := fst r in
     if space_lt cap pf back n then
       Act (a_push_ld_front exp2 cap back vals) (fun r2 =>
         let pf' := fst r2 in
-        if space_lt cap pf' back n then Ret (pf', false)
-        else Act (a_st_back (u64 (back + n))) (fun _ => Ret (pf', true)))
-    else Act (a_st_back (u64 (back + n))) (fun _ => Ret (pf, true))).
+        if space_lt cap pf' back n then Ret pf'
+        else Act (a_st_back (u64 (back + n)) vals) (fun _ => Ret pf'))
+    else Act (a_st_back (u64 (back + n)) vals) (fun _ => Ret pf)).
 
 (** emplace / enqueue_with / push( val ): the same accesses and the same memory effect as
     push( &val, 1 ): one cell written at buffer_.mod( back ), back_.store( back + 1 ) *)
-Definition push_1 (exp2 : bool) (cap pf v : Z) : prog (Z * bool) := push_n exp2 cap pf [v].
+Definition push_1 (exp2 : bool) (cap pf v : Z) : prog Z := push_n exp2 cap pf [v].
 
-(** *** consumer *)
+(** *** consumer
+    [need] = the count of the availability test, [n] = number of cells the local code reads when the test
+    succeeds (pop: need = n = count; front(): 1, 1; pop_front(): 1, 0), [eok vals] = response events when the
+    call returns right after a successful test (front()), [efail] = response event of the failing return. *)
 
-Definition a_pop_ld_front (exp2 : bool) (cap cb : Z) (n : nat) : G -> G * V * list ev :=
+Definition a_cons_ld_front (exp2 : bool) (cap cb need : Z) (n : nat) (eok : list Z -> list ev)
+  : G -> G * V * list ev :=
   fun g =>
     let front := g_front g in
-    let vals := if avail_lt cb front (Z.of_nat n) then [] else read_cells exp2 cap g front n in
-    (g, (front, vals), [EvAcc KLd obj_front true]).
+    if avail_lt cb front need then (g, (front, []), [EvAcc KLd obj_front true])
+    else let vals := read_cells exp2 cap g front n in
+         (g, (front, vals), EvAcc KLd obj_front true :: eok vals).
 
-Definition a_pop_ld_back (exp2 : bool) (cap front : Z) (n : nat) : G -> G * V * list ev :=
+Definition a_cons_ld_back (exp2 : bool) (cap front need : Z) (n : nat) (eok : list Z -> list ev) (efail : ev)
+  : G -> G * V * list ev :=
   fun g =>
     let cb := g_back g in
-    let vals := if avail_lt cb front (Z.of_nat n) then [] else read_cells exp2 cap g front n in
-    (g, (cb, vals), [EvAcc KLd obj_back true]).
+    if avail_lt cb front need then (g, (cb, []), [EvAcc KLd obj_back true; efail])
+    else let vals := read_cells exp2 cap g front n in
+         (g, (cb, vals), EvAcc KLd obj_back true :: eok vals).
 
-Definition a_st_front (v : Z) : G -> G * V * list ev :=
-  fun g => (set_front g v, (0, []), [EvAcc KSt obj_front true]).
+(** front_.store( front ); return true *)
+Definition a_st_front (v : Z) (vals : list Z) : G -> G * V * list ev :=
+  fun g => (set_front g v, (0, []), [EvAcc KSt obj_front true; EvCli "pop_ok" vals]).
 
-(** pop( arr, count ): result = (new cback_, Some values | None) *)
-Definition pop_n (exp2 : bool) (cap cb : Z) (n : nat) : prog (Z * option (list Z)) :=
+Definition no_ev : list Z -> list ev := fun _ => [].
+
+(** pop( arr, count ): result = new cback_ *)
+Definition pop_n (exp2 : bool) (cap cb : Z) (n : nat) : prog Z :=
   let zn := Z.of_nat n in
-  Act (a_pop_ld_front exp2 cap cb n) (fun r =>
+  let efail := EvCli "pop_fail" [zn] in
+  Act (a_cons_ld_front exp2 cap cb zn n no_ev) (fun r =>
     let front := fst r in
     if avail_lt cb front zn then
-      Act (a_pop_ld_back exp2 cap front n) (fun r2 =>
+      Act (a_cons_ld_back exp2 cap front zn n no_ev efail) (fun r2 =>
         let cb' := fst r2 in
-        if avail_lt cb' front zn then Ret (cb', None)
-        else Act (a_st_front (u64 (front + zn))) (fun _ => Ret (cb', Some (snd r2))))
-    else Act (a_st_front (u64 (front + zn))) (fun _ => Ret (cb, Some (snd r)))).
+        if avail_lt cb' front zn then Ret cb'
+        else Act (a_st_front (u64 (front + zn)) (snd r2)) (fun _ => Ret cb'))
+    else Act (a_st_front (u64 (front + zn)) (snd r)) (fun _ => Ret cb)).
 
-(** front() followed by the client's read of *p: the accesses of pop( .., 1 ) without the store *)
-Definition peek (exp2 : bool) (cap cb : Z) : prog (Z * option (list Z)) :=
-  Act (a_pop_ld_front exp2 cap cb 1) (fun r =>
+(** front() followed by the client's read of *p: the accesses of pop( .., 1 ) without the store;
+    result = (new cback_, Some [value] | None) *)
+Definition peek (exp2 : bool) (cap cb : Z) (eok : list Z -> list ev) (efail : ev) : prog (Z * option (list Z)) :=
+  Act (a_cons_ld_front exp2 cap cb 1 1 eok) (fun r =>
     let front := fst r in
     if avail_lt cb front 1 then
-      Act (a_pop_ld_back exp2 cap front 1) (fun r2 =>
+      Act (a_cons_ld_back exp2 cap front 1 1 eok efail) (fun r2 =>
         let cb' := fst r2 in
         if avail_lt cb' front 1 then Ret (cb', None) else Ret (cb', Some (snd r2)))
     else Ret (cb, Some (snd r))).
 
-(** plain loads (pop_front, size, empty) *)
-Definition a_ld_front : G -> G * V * list ev := fun g => (g, (g_front g, []), [EvAcc KLd obj_front true]).
-Definition a_ld_back : G -> G * V * list ev := fun g => (g, (g_back g, []), [EvAcc KLd obj_back true]).
-
-(** pop_front(): no cell is read *)
-Definition pop_front (cb : Z) : prog (Z * bool) :=
-  Act a_ld_front (fun r =>
+(** pop_front(): no cell is read; [vals] = what the client read through the pointer front() returned *)
+Definition pop_front (exp2 : bool) (cap cb : Z) (vals : list Z) : prog Z :=
+  let efail := EvCli "popfront_fail" [] in
+  Act (a_cons_ld_front exp2 cap cb 1 0 no_ev) (fun r =>
     let front := fst r in
     if avail_lt cb front 1 then
-      Act a_ld_back (fun r2 =>
+      Act (a_cons_ld_back exp2 cap front 1 0 no_ev efail) (fun r2 =>
         let cb' := fst r2 in
-        if avail_lt cb' front 1 then Ret (cb', false)
-        else Act (a_st_front (u64 (front + 1))) (fun _ => Ret (cb', true)))
-    else Act (a_st_front (u64 (front + 1))) (fun _ => Ret (cb, true))).
+        if avail_lt cb' front 1 then Ret cb'
+        else Act (a_st_front (u64 (front + 1)) vals) (fun _ => Ret cb'))
+    else Act (a_st_front (u64 (front + 1)) vals) (fun _ => Ret cb)).
 
 (** *** both *)
-Definition size_op : prog Z :=
-  Act a_ld_back (fun b => Act a_ld_front (fun f => Ret (u64 (fst b - fst f)))).
-Definition empty_op : prog bool :=
-  Act a_ld_front (fun f => Act a_ld_back (fun b => Ret (Z.eqb (fst f) (fst b)))).
+Definition a_ld_front (mk : Z -> list ev) : G -> G * V * list ev :=
+  fun g => (g, (g_front g, []), EvAcc KLd obj_front true :: mk (g_front g)).
+Definition a_ld_back (mk : Z -> list ev) : G -> G * V * list ev :=
+  fun g => (g, (g_back g, []), EvAcc KLd obj_back true :: mk (g_back g)).
+
+Definition size_op : prog unit :=
+  Act (a_ld_back (fun _ => [])) (fun b =>
+    Act (a_ld_front (fun f => [EvCli "size" [u64 (fst b - f)]])) (fun _ => Ret tt)).
+Definition empty_op : prog unit :=
+  Act (a_ld_front (fun _ => [])) (fun f =>
+    Act (a_ld_back (fun b => [EvCli "empty" [if Z.eqb (fst f) b then 1 else 0]])) (fun _ => Ret tt)).
 
 (** *** client operations *)
 Inductive pop_ :=          (* producer operations *)
@@ -230,18 +252,13 @@ Inductive pop_ :=          (* producer operations *)
 Inductive cop :=           (* consumer operations *)
 | CPop (n : nat) | CPop1 | CDeqWith | CFrontPop | CFront | CSize | CEmpty.
 
-Definition ev_push_result (vals : list Z) (ok : bool) : ev :=
-  if ok then EvCli "push_ok" vals else EvCli "push_fail" [zlen vals].
-
 Definition do_push (exp2 : bool) (cap pf : Z) (vals : list Z) : prog Z :=
-  Emit [EvCli "inv_push" vals]
-    (bind (push_n exp2 cap pf vals) (fun r =>
-       Emit [ev_push_result vals (snd r)] (Ret (fst r)))).
+  Emit [EvCli "inv_push" vals] (push_n exp2 cap pf vals).
 
 Definition do_size {L} (l : L) : prog L :=
-  Emit [EvCli "inv_size" []] (bind size_op (fun n => Emit [EvCli "size" [n]] (Ret l))).
+  Emit [EvCli "inv_size" []] (bind size_op (fun _ => Ret l)).
 Definition do_empty {L} (l : L) : prog L :=
-  Emit [EvCli "inv_empty" []] (bind empty_op (fun b => Emit [EvCli "empty" [if b then 1 else 0]] (Ret l))).
+  Emit [EvCli "inv_empty" []] (bind empty_op (fun _ => Ret l)).
 
 (** one producer operation; the result is the new pfront_ *)
 Definition run_pop (exp2 : bool) (cap pf : Z) (o : pop_) : prog Z :=
@@ -254,31 +271,19 @@ Definition run_pop (exp2 : bool) (cap pf : Z) (o : pop_) : prog Z :=
   end.
 
 Definition do_pop (exp2 : bool) (cap cb : Z) (n : nat) : prog Z :=
-  Emit [EvCli "inv_pop" [Z.of_nat n]]
-    (bind (pop_n exp2 cap cb n) (fun r =>
-       match snd r with
-       | Some vals => Emit [EvCli "pop_ok" vals] (Ret (fst r))
-       | None => Emit [EvCli "pop_fail" [Z.of_nat n]] (Ret (fst r))
-       end)).
+  Emit [EvCli "inv_pop" [Z.of_nat n]] (pop_n exp2 cap cb n).
 
 Definition do_front_pop (exp2 : bool) (cap cb : Z) : prog Z :=
   Emit [EvCli "inv_pop" [1]]
-    (bind (peek exp2 cap cb) (fun r =>
+    (bind (peek exp2 cap cb no_ev (EvCli "pop_fail" [1])) (fun r =>
        match snd r with
-       | Some vals =>
-           bind (pop_front (fst r)) (fun r2 =>
-             if snd r2 then Emit [EvCli "pop_ok" vals] (Ret (fst r2))
-             else Emit [EvCli "popfront_fail" []] (Ret (fst r2)))
-       | None => Emit [EvCli "pop_fail" [1]] (Ret (fst r))
+       | Some vals => pop_front exp2 cap (fst r) vals
+       | None => Ret (fst r)
        end)).
 
 Definition do_front (exp2 : bool) (cap cb : Z) : prog Z :=
   Emit [EvCli "inv_front" []]
-    (bind (peek exp2 cap cb) (fun r =>
-       match snd r with
-       | Some vals => Emit [EvCli "front_ok" vals] (Ret (fst r))
-       | None => Emit [EvCli "front_null" []] (Ret (fst r))
-       end)).
+    (bind (peek exp2 cap cb (fun vals => [EvCli "front_ok" vals]) (EvCli "front_null" [])) (fun r => Ret (fst r))).
 
 (** one consumer operation; the result is the new cback_ *)
 Definition run_cop (exp2 : bool) (cap cb : Z) (o : cop) : prog Z :=
